@@ -150,7 +150,7 @@ func runC17(c *Check) {
 	// ---- lazy loop
 	{
 		g := BuildECFG(p, lazy, ExpandOpts{MaxDepth: 2, Stop: func(fn *ssa.Function) bool {
-			return strings.HasSuffix(fn.String(), "publishBlockInternal") || strings.Contains(fn.String(), "publishBlockInternal$bound")
+			return strings.HasSuffix(fnName(fn), "publishBlockInternal") || strings.Contains(fnName(fn), "publishBlockInternal$bound")
 		}})
 		c.NoteGraph(g)
 		fn := fnName(lazy)
@@ -264,7 +264,7 @@ func runC17(c *Check) {
 	}
 	// ---- normal loop
 	{
-		g := BuildECFG(p, normal, ExpandOpts{MaxDepth: 1, Stop: func(fn *ssa.Function) bool { return strings.Contains(fn.String(), "publishBlockInternal") }})
+		g := BuildECFG(p, normal, ExpandOpts{MaxDepth: 1, Stop: func(fn *ssa.Function) bool { return strings.Contains(fnName(fn), "publishBlockInternal") }})
 		c.NoteGraph(g)
 		fn := fnName(normal)
 		sel := g.Select(func(n *Node) bool { s, ok := n.In.(*ssa.Select); return ok && s.Blocking && n.Ctx.Depth == 0 })
